@@ -123,12 +123,12 @@ pub fn run(args: &Args) -> i32 {
     let rt = runtime(4);
     let mut ev = Evidence::new();
     let mut rng = Rng::sub(args.seed, 3116, 0);
-    let nfilters = args.tier.pick(18usize, 240);
+    let nfilters = args.tier.pick(30usize, 240);
     let nsrc = args.tier.pick(5usize, 10);
     for i in 0..nfilters {
         let mut sources: Vec<Ipv4Addr> = (0..nsrc).map(|_| gen_source(&mut rng)).collect();
         sources.push(Ipv4Addr::new(127, 0, 0, 1));
-        let f = gen_filter(&mut rng, &sources);
+        let f = vcommon::filter::gen_filter_indexed(&mut rng, &sources, (i / 3) as u64 + if i >= 15 { 5 } else { 0 });
         let variant = ["tcp", "tls", "tls_authz"][i % 3];
         unsafe {
             let filter = match c_filter(&f) {
